@@ -138,8 +138,357 @@ def run(ctx, rep):
     check_formulas(fx, rep)
     check_bn128_wiring(fx, rep)
     check_modexp(fx, rep)
+    check_blake2_layout(fx, rep)
+    check_blake2_algo(fx, rep)
     check_mapping(ctx.facts('default'), rep)
     rep.assume('the linked libraries compute the functions their EIPs name; inputs longer than 2^32 bytes are not considered in the formula grids')
+
+
+# ------------------------------------------------------------------ R6
+
+BLAKE2_LAYOUT = {'[u64; 8]': list(range(4, 68, 8)), '[u64; 16]': list(range(68, 196, 8)), '[u64; 2]': [196, 204]}
+
+
+def check_blake2_layout(fx, rep):
+    """R6: the EIP-152 input layout.  rounds = big-endian u32 of bytes 0..4; h, m, t are the
+    little-endian u64 words at bytes 4.., 68.., 196.. (8, 16 and 2 words, in order); f is byte 212.
+    Every u64::from_le_bytes window is traced to its constant offset (or to the constant range its
+    loop steps over) and to the array it is stored into."""
+    from cfg import Origins
+    from facts import Operand
+    f = fx.fns.get(P + 'blake2::run')
+    if f is None:
+        rep.undecided('R6-blake2-layout', 'run', 'not found')
+        return
+    rep.fn(f)
+    og = Origins(f, fx)
+
+    def consts(origins):
+        out = []
+        for o in origins:
+            if o.root[0] == 'const' and o.root[1] is not None and not o.path:
+                out.append(int(o.root[1]))
+            else:
+                return None
+        return out
+
+    def back(o, name):
+        """the call named `name` that origin o denotes, else None"""
+        if o.root[0] == 'call' and o.root[1].split('::')[-1] == name:
+            return f.blocks[o.root[2]].term
+        return None
+
+    def loop_positions(o):
+        """o = next(..)@Some.0.<k> of an enumerate(step_by(a..b, s)) loop: (next block, k, [positions])"""
+        t = back(o, 'next')
+        if t is None or o.path[:2] != ('@Some', '.0') or len(o.path) != 3:
+            return None
+        cur = og.of_operand(t.args[0])
+        chain = []
+        for name in ('into_iter', 'enumerate', 'step_by'):
+            if len(cur) != 1 or back(cur[0], name) is None:
+                return None
+            tt = back(cur[0], name)
+            chain.append(tt)
+            cur = og.of_operand(tt.args[0])
+        sb = chain[-1]
+        step = consts(og.of_operand(sb.args[1]))
+        rng = cur[0] if len(cur) == 1 else None
+        if not step or rng is None or rng.root[0] != 'agg' or not rng.root[1].endswith('::Range'):
+            return None
+        a, b = consts(list(rng.root[4][0])), consts(list(rng.root[4][1]))
+        if not a or not b or len(a) != 1 or len(b) != 1:
+            return None
+        return o.root[2], o.path[2], list(range(a[0], b[0], step[0]))
+
+    windows = {}        # array type -> list of (index key, [byte offsets])
+    problems = []
+    n = 0
+    for bi, t in f.calls():
+        short = (t.callee or '')
+        if not short.endswith('from_le_bytes') or 'u64' not in short:
+            continue
+        n += 1
+        # the 8-byte window: unwrap(try_into(index(input, Range{start, ..})))
+        starts = None
+        for o in og.of_operand(t.args[0]):
+            ti = back(o, 'try_into')
+            if ti is None:
+                continue
+            for o2 in og.of_operand(ti.args[0]):
+                ix = back(o2, 'index')
+                if ix is None:
+                    continue
+                for o3 in og.of_operand(ix.args[1]):
+                    if o3.root[0] == 'agg' and o3.root[1].endswith('::Range'):
+                        st = list(o3.root[4][0])
+                        c = consts(st)
+                        if c is not None and len(c) == 1:
+                            starts = ('const', c)
+                        elif len(st) == 1:
+                            lp = loop_positions(st[0])
+                            if lp is not None and lp[1] == '.1':
+                                starts = ('loop', lp[0], lp[2])
+        if starts is None:
+            problems.append('a from_le_bytes window at line %s is not at a constant offset nor in a constant stepped range' % f.where(bi))
+            continue
+        # where the word goes
+        dest = t.dest.b if t.dest is not None and not t.dest.pr else None
+        placed = False
+        for b in f.blocks:
+            if b.cleanup:
+                continue
+            for s_ in b.stmts:
+                if s_.kind != 'assign' or s_.rv is None:
+                    continue
+                uses = [k for k, op in enumerate(s_.rv.ops or []) if op.place is not None and op.place.b == dest and not op.place.pr]
+                if not uses:
+                    continue
+                ty = f.local_ty(s_.place.b) or ''
+                if s_.place.pr and s_.place.pr[0].startswith('[_'):
+                    # h[i] = word: i must be the enumerate index of the same loop step
+                    il = int(s_.place.pr[0][2:-1])
+                    io = og.of_local(il, 12)
+                    lp = [loop_positions(x) for x in io]
+                    if starts[0] == 'loop' and len(lp) == 1 and lp[0] is not None and lp[0][0] == starts[1] and lp[0][1] == '.0':
+                        windows.setdefault(ty, []).extend(starts[2])
+                        placed = True
+                    else:
+                        problems.append('a word is stored into %s at an index that is not the step counter of its own loop' % ty)
+                        placed = True
+                elif s_.rv.rv == 'agg' and ty.startswith('[u64;') and starts[0] == 'const':
+                    windows.setdefault(ty, {}) if False else None
+                    windows.setdefault(ty, [])
+                    lst = windows[ty]
+                    while len(lst) < len(s_.rv.ops):
+                        lst.append(None)
+                    lst[uses[0]] = starts[1][0]
+                    placed = True
+        if not placed:
+            problems.append('a parsed word (offset %s) is not stored into one of the h / m / t arrays' % (starts[1] if starts[0] == 'const' else starts[2][:1]))
+    rep.floor('R6-blake2-words', n, 3)
+    for ty, want in BLAKE2_LAYOUT.items():
+        got = windows.get(ty)
+        key = {'[u64; 8]': 'h', '[u64; 16]': 'm', '[u64; 2]': 't'}[ty]
+        if got != want:
+            rep.violation('R6-blake2-layout', key, 'BLAKE2F input: the %s words are read at byte offsets %s, EIP-152 places them at %s' % (key, got, want), f.where())
+        else:
+            rep.ok('R6-blake2-layout', key, '%d little-endian words from byte %d' % (len(want), want[0]))
+    if problems:
+        rep.violation('R6-blake2-layout', 'words', 'BLAKE2F input: ' + sorted(set(problems))[0], f.where())
+    # the final-block flag is byte 212
+    flag = []
+    for b in f.blocks:
+        if b.cleanup or b.term.kind != 'switch':
+            continue
+        d = b.term.d.get('d', {})
+        pl = d.get('c') or d.get('m')
+        if pl and pl.get('pr') and pl['pr'][-1].startswith('[_') and b.term.d.get('dty') == 'u8':
+            c = consts(og.of_local(int(pl['pr'][-1][2:-1]), 12))
+            flag.append((c, sorted(a[0] for a in b.term.d.get('arms', []))))
+    if flag == [([212], [0, 1])]:
+        rep.ok('R6-blake2-layout', 'f', 'byte 212, values 0 and 1 only')
+    else:
+        rep.violation('R6-blake2-layout', 'f', 'BLAKE2F input: the final-block indicator is decided on %s; EIP-152: byte 212 with values 0 / 1, anything else is an error' % flag, f.where())
+    # rounds: big-endian u32 of bytes ..4
+    rounds = []
+    for bi, t in f.calls():
+        if (t.callee or '').endswith('from_be_bytes') and 'u32' in (t.callee or ''):
+            for o in og.of_operand(t.args[0]):
+                ti = back(o, 'try_into')
+                for o2 in (og.of_operand(ti.args[0]) if ti else []):
+                    ix = back(o2, 'index')
+                    for o3 in (og.of_operand(ix.args[1]) if ix else []):
+                        if o3.root[0] == 'agg':
+                            rounds.append((o3.root[1].split('::')[-1], [consts(list(x)) for x in o3.root[4]]))
+    if rounds in ([('RangeTo', [[4]])], [('Range', [[0], [4]])]):
+        rep.ok('R6-blake2-layout', 'rounds', 'big-endian u32 of bytes 0..4')
+    else:
+        rep.violation('R6-blake2-layout', 'rounds', 'BLAKE2F input: rounds is read as %s; EIP-152: big-endian u32 of bytes 0..4' % rounds, f.where())
+
+
+# ------------------------------------------------------------------ R7
+
+def _flat(val):
+    if isinstance(val, dict) and 'fields' in val:
+        return [_flat(x) for x in val['fields']]
+    return val
+
+
+def check_blake2_algo(fx, rep):
+    """R7: the BLAKE2b compression function is implemented in this repository, not linked.
+    (a) IV and SIGMA are RFC 7693's; (b) the mixing function g, evaluated from its extracted
+    expression with the four indices fixed, equals RFC 7693's G on a value grid; (c) compress calls g
+    with the eight column / diagonal index quadruples in order and the message words
+    m[SIGMA[i % 10][2j]], m[SIGMA[i % 10][2j+1]]; folds t[0], t[1] into v[12], v[13] and inverts v[14]
+    for the final block; returns h[i] ^= v[i] ^ v[i + 8] for i in 0..8."""
+    import random
+    from cfg import Origins
+    A = P + 'blake2::algo::'
+    for nm, want in (('IV', REF.BLAKE2B_IV), ('SIGMA', REF.BLAKE2_SIGMA)):
+        got = _flat(fx.const_val(A + nm))
+        if got == want:
+            rep.ok('R7-blake2-algorithm', nm, 'RFC 7693')
+        else:
+            rep.violation('R7-blake2-algorithm', nm, 'blake2::algo::%s differs from RFC 7693 (%s)' % (nm, str(got)[:80]))
+    g = fx.fns.get(A + 'g')
+    comp = fx.fns.get(A + 'compress')
+    if g is None or comp is None:
+        rep.undecided('R7-blake2-algorithm', 'g', 'g / compress not found')
+        return
+    rep.fn(g)
+    rep.fn(comp)
+    # (b)
+    try:
+        rs = [r for r in Symx(fx, max_paths=200).run(g, [('ref', ('arg', 1), ()), K(0), K(1), K(2), K(3), None, None]) if not r.cut]
+    except Budget:
+        rs = []
+    if len(rs) != 1:
+        rep.undecided('R7-blake2-algorithm', 'g', 'g is not straight-line (%d paths)' % len(rs), g.where())
+    else:
+        st = {path: v for (root, path), v in rs[0].stores.items() if root == ('arg', 1)}
+        rnd = random.Random(7693)
+        vals = [0, 1, REF.M64, 1 << 63, 0x0123456789abcdef]
+        bad = None
+
+        def rot(sv, env):
+            x, n = ev(sv[2][0], env), ev(sv[2][1], env)
+            return ((x >> n) | (x << (64 - n))) & REF.M64
+
+        def wadd(sv, env):
+            return (ev(sv[2][0], env) + ev(sv[2][1], env)) & REF.M64
+        for k in range(200):
+            ins = [rnd.choice(vals) if k < 60 else rnd.getrandbits(64) for _ in range(6)]
+            env = {'arg1[0]': ins[0], 'arg1[1]': ins[1], 'arg1[2]': ins[2], 'arg1[3]': ins[3], 'arg6': ins[4], 'arg7': ins[5],
+                   '__calls__': {'rotate_right': rot, 'wrapping_add': wadd}}
+            try:
+                got = tuple(ev_x(st[('[%d]' % i,)], env) for i in range(4))
+            except (NoValue, KeyError) as e:
+                bad = 'not evaluable (%s)' % e
+                break
+            want = REF.blake2_g(*ins)
+            if got != want:
+                bad = 'differs from RFC 7693 G for inputs %s' % [hex(x) for x in ins]
+                break
+        if bad:
+            rep.violation('R7-blake2-algorithm', 'g', 'blake2 mixing function g ' + bad, g.where())
+        else:
+            rep.ok('R7-blake2-algorithm', 'g', 'equals G on 200 value tuples')
+    # (c)
+    og = Origins(comp, fx)
+    calls = [(bi, t) for bi, t in comp.calls() if (t.target_fn or '') == A + 'g']
+    problems = []
+
+    def cst(op):
+        oo = og.of_operand(op)
+        if len(oo) == 1 and oo[0].root[0] == 'const' and oo[0].root[1] is not None and not oo[0].path:
+            return int(oo[0].root[1])
+        return None
+
+    def word(op):
+        """m[SIGMA[i % 10][k]] -> k"""
+        oo = og.of_operand(op)
+        if not (len(oo) == 1 and oo[0].root == ('param', 3) and len(oo[0].path) == 1 and oo[0].path[0].startswith('[_')):
+            return None
+        io = og.of_local(int(oo[0].path[0][2:-1]), 12)
+        if len(io) != 1 or io[0].root[0] != 'const' or not str(io[0].root[2]).endswith('algo::SIGMA') or len(io[0].path) != 2:
+            return None
+        row = og.of_local(int(io[0].path[0][2:-1]), 12)
+        col = og.of_local(int(io[0].path[1][2:-1]), 12)
+        if len(row) != 1 or row[0].root[0] != 'bin' or row[0].root[1] != 'Rem':
+            return None
+        den = row[0].root[3][0] if len(row[0].root) > 3 and row[0].root[3] else None
+        if den is None or den.root[0] != 'const' or den.root[1] != 10:
+            return None
+        num = row[0].root[2]
+        if not (len(num) == 1 and num[0].root[0] == 'call' and num[0].root[1].endswith('::next') and num[0].path == ('@Some', '.0')):
+            return None                 # the row is selected by the round counter itself
+        if len(col) == 1 and col[0].root[0] == 'const':
+            return int(col[0].root[1])
+        return None
+    got = []
+    for bi, t in calls:
+        got.append((tuple(cst(a) for a in t.args[1:5]), word(t.args[5]), word(t.args[6])))
+    want = [(q, 2 * j, 2 * j + 1) for j, q in enumerate(REF.BLAKE2_G_INDICES)]
+    if got != want:
+        k = next((i for i in range(min(len(got), len(want))) if got[i] != want[i]), min(len(got), len(want)))
+        problems.append('call %d of g in the round is %s, RFC 7693 has %s' % (k, got[k] if k < len(got) else None, want[k] if k < len(want) else None))
+    # prologue / epilogue stores
+    stores = set()
+    for b in comp.blocks:
+        if b.cleanup:
+            continue
+        for s_ in b.stmts:
+            if s_.kind == 'assign' and s_.place.pr and s_.place.pr[0].startswith('[_') and s_.rv is not None:
+                io = og.of_local(int(s_.place.pr[0][2:-1]), 12)
+                idx = int(io[0].root[1]) if len(io) == 1 and io[0].root[0] == 'const' and io[0].root[1] is not None else None
+                base = og.of_local(s_.place.b, 12)
+                tgt = 'h' if any(x.root == ('param', 2) for x in base) else 'v'
+                others = []
+                for op in (s_.rv.ops or []):
+                    for o in og.of_operand(op):
+                        if o.root == ('param', 4):
+                            ii = og.of_local(int(o.path[0][2:-1]), 12) if o.path and o.path[0].startswith('[_') else []
+                            others.append('t[%s]' % (ii[0].root[1] if len(ii) == 1 and ii[0].root[0] == 'const' else o.path))
+                stores.add((tgt, idx, s_.rv.d.get('op') or s_.rv.rv, tuple(others)))
+    need = {('v', 12, 'BitXor', ('t[0]',)), ('v', 13, 'BitXor', ('t[1]',)), ('v', 14, 'Not', ())}
+    missing = need - stores
+    extra = {x for x in stores if x[0] == 'v'} - need
+    if missing or extra:
+        problems.append('the state words folded before the rounds are %s; RFC 7693: v[12] ^= t[0], v[13] ^= t[1], v[14] = !v[14] if final' % sorted(map(str, {x for x in stores if x[0] == 'v'})))
+    if problems:
+        rep.violation('R7-blake2-algorithm', 'compress', 'blake2 compress: ' + problems[0], comp.where())
+    else:
+        rep.ok('R7-blake2-algorithm', 'compress', '8 g calls per round with SIGMA[i %% 10]; t and f folded into v[12..15]')
+    # epilogue h[i] ^= v[i] ^ v[i+8] over 0..8, and the initial state, from the path events
+    try:
+        ps = Symx(fx, max_paths=500, snapshot_refs=True).run(comp)
+    except Budget:
+        ps = []
+    fin = set()
+    init = set()
+    for r in ps:
+        for (root, path), v in r.stores.items():
+            if root == ('arg', 2) and path and path[0].startswith('[_'):
+                i = og.of_local(int(path[0][2:-1]), 12)
+                txt = render(v)
+                idxs = [og.of_local(int(x[2:-1]), 12) for x in [path[0]] + __import__('re').findall(r'\[_\d+\]', txt)]
+
+                def kind(oo):
+                    if len(oo) != 1:
+                        return '?'
+                    o = oo[0]
+                    if o.root[0] == 'call' and o.root[1].endswith('::next') and o.path == ('@Some', '.0'):
+                        return 'i'
+                    if o.root[0] == 'bin' and o.root[1] in ('AddWithOverflow', 'Add') and len(o.root[2]) == 1 and kind(list(o.root[2])) == 'i' \
+                            and len(o.root[3]) == 1 and o.root[3][0].root[0] == 'const':
+                        return 'i+%s' % o.root[3][0].root[1]
+                    return '?'
+                fin.add((txt.count('BitXor('), tuple(kind(o) for o in idxs)))
+        rng = [render(e[1][0]) for e in r.events if e[0].endswith('into_iter') and e[1]]
+        cps = [(render(a[1][1])[:40]) for a in r.events if a[0].endswith('copy_from_slice')]
+        init.add((tuple(rng), tuple(c[:12] for c in cps)))
+    ok_fin = fin == {(2, ('i', 'i', 'i', 'i+8'))}
+    ok_rng = all(x[0][-1:] == ('Range::Range{start: 0, end: 8}',) or len(x[0]) < 2 for x in init) and any(len(x[0]) == 2 for x in init)
+    ok_cp = all(x[1] == ('&arg2', '&tuple(76408')for x in init)
+    if ok_fin and ok_rng and ok_cp:
+        rep.ok('R7-blake2-algorithm', 'compress:state', 'v = h || IV; h[i] ^= v[i] ^ v[i + 8] for i in 0..8')
+    else:
+        rep.violation('R7-blake2-algorithm', 'compress:state', 'blake2 compress: initial state / final fold not as RFC 7693 (final %s, ranges %s)' % (sorted(fin), sorted(init)[:1]), comp.where())
+
+
+def ev_x(sv, env):
+    """ev with bitwise xor / not on 64-bit words"""
+    if sv[0] == 'bin' and sv[1] == 'BitXor':
+        return ev_x(sv[2], env) ^ ev_x(sv[3], env)
+    if sv[0] == 'call':
+        short = sv[1].split('::')[-1]
+        if short == 'rotate_right':
+            x, n = ev_x(sv[2][0], env), ev_x(sv[2][1], env)
+            return ((x >> n) | (x << (64 - n))) & REF.M64
+        if short == 'wrapping_add':
+            return (ev_x(sv[2][0], env) + ev_x(sv[2][1], env)) & REF.M64
+    return ev(sv, env)
 
 
 # ------------------------------------------------------------------ R1
